@@ -450,6 +450,7 @@ def run(tier: str, budget: Budget, rnd, repo_mod) -> StreamResult:
                 if len(res.disagreements) > 5:
                     break
     nonfinite_cases(res, rnd, tier)
+    same_list_probe(res, rnd)
     from common import optimized_probe
     optimized_probe(res, "game", rnd.randrange(10 ** 6), "table:interpreter-flag")
     return res
@@ -521,6 +522,40 @@ def nonfinite_run(n: int, seed: int):
         if [bool(np.isnan(kv[c])) for c in range(N)] != [c not in known for c in range(N)]:
             bad.append(f"{nm}: get_known_values() is not NaN exactly at the unknown coalitions")
     return bad
+
+
+def same_list_probe(res, rnd) -> None:
+    """deterministic version of what the histories do at random: ONE list object handed to every list getter of one game twice in a row,
+    edited in place (same length) in between — each answer is for what the list holds at the call"""
+    from incomplete_cooperative.coalitions import Coalition
+    from incomplete_cooperative.game import IncompleteCooperativeGame
+    for n in (3, 4):
+        N = 2 ** n
+        g = IncompleteCooperativeGame(n)
+        vals = {c: float(rnd.randint(-9, 9)) for c in rnd.sample(range(1, N), N // 2)}
+        for c, x in vals.items():
+            g.set_value(x, Coalition(c))
+        g.set_upper_bounds(np.arange(N, dtype=float) + 100.0)
+        g.set_lower_bounds(-np.arange(N, dtype=float) - 100.0)
+        K_, L_, U_ = dump_impl(g)
+        work = [Coalition(c) for c in rnd.sample(range(N), 3)]
+        for edit in range(4):
+            ids = [c.id for c in work]
+            got = {"are_values_known": [bool(x) for x in g.are_values_known(work)], "get_upper_bounds": [frac(x) for x in g.get_upper_bounds(work)],
+                   "get_lower_bounds": [frac(x) for x in g.get_lower_bounds(work)],
+                   "get_known_values": [None if np.isnan(x) else frac(x) for x in g.get_known_values(work)]}
+            want = {"are_values_known": [K_[c] for c in ids], "get_upper_bounds": [U_[c] for c in ids], "get_lower_bounds": [L_[c] for c in ids],
+                    "get_known_values": [U_[c] if K_[c] else None for c in ids]}
+            res.evaluations += 1
+            res.count("same-list-probe")
+            bad = [k for k in got if got[k] != want[k]]
+            if bad:
+                res.violation(f"list getters {bad} handed the SAME list object again after it was edited in place (same length) answer for what the "
+                              f"list held before, not for {ids}", {"n": n, "list_now": ids, "edits": edit, "getters": bad}, key="table:same-list-object")
+                return
+            work[rnd.randrange(3)] = Coalition(rnd.choice([c for c in range(N) if c not in ids]))
+            if edit == 2:
+                work.reverse()
 
 
 def nonfinite_cases(res, rnd, tier) -> None:
